@@ -20,6 +20,7 @@ import importlib
 import json
 import multiprocessing as mp
 import os
+import re
 import sys
 import time
 import traceback
@@ -90,10 +91,13 @@ def stale_reason(e):
     if isinstance(e, (AttributeError, ImportError)) and in_harness and ('abacusnbody' in str(e) or "has no attribute '_" in str(e) or 'object has no attribute' in str(e)):
         return f'{name} in the driver ({os.path.basename(inner.filename)}:{inner.lineno}): {e}'[:300]
     msg = str(e)
+    if isinstance(e, AttributeError) and re.search(r"module '(blosc|Corrfunc|parallel_numpy_rng)[\w.]*' has no attribute", msg):
+        return f'the stand-in for a third-party module lacks an API the code now uses: {msg[:200]}'
     if isinstance(e, TypeError) and name != 'TypingError' and any(p in msg for p in (
             'missing a required argument', 'too many positional arguments', 'got an unexpected keyword argument',
             'multiple values for argument', 'required positional argument', 'takes from', 'positional arguments but',
-            'too many arguments: expected', 'not enough arguments: expected')):
+            'too many arguments: expected', 'not enough arguments: expected',
+            "missing argument '", 'some keyword arguments unexpected')):      # (the last two are numba's dispatcher wordings)
         return f'call signature no longer matches the driver: {msg[:200]}'
     return None
 
